@@ -221,7 +221,9 @@ Proof.
     destruct ok; cbn [fst]; (eapply ext_then; [exact E|reflexivity|reflexivity]).
   - (* EPsPub *) destruct (fresh st n); cbn [negb]; [|apply ext_refl].
     destruct (admit_pub cf st PsPs s n (fx_f09 fx)) as [[st1 ok] g] eqn:E. apply admit_pub_ext in E.
-    destruct ok; cbn [fst]; (eapply ext_then; [exact E|reflexivity|reflexivity]).
+    destruct ok; cbn [fst]; [destruct listen; cbn [fst]|]; try (eapply ext_then; [exact E|reflexivity|reflexivity]).
+    destruct (get_or_create cf st s) as [st0 g0] eqn:E0. destruct (get_or_create_ext _ _ _ _ _ E0) as [X _]. cbn [fst].
+    eapply ext_then; [exact X|reflexivity|reflexivity].
   - (* EGone *) destruct (find_sess n (st_sess st)) as [x|]; [|apply ext_refl]. destruct (s_gone x); [apply ext_refl|].
     destruct (s_kind x); try apply ext_refl;
       match goal with
